@@ -9,6 +9,7 @@ import (
 	"hash/fnv"
 	"math"
 	"os"
+	"runtime"
 	"runtime/debug"
 	"sort"
 	"strconv"
@@ -336,8 +337,14 @@ type harnessError struct{ msg string }
 // (history independence). Failures of the repeated check are reported with the kind prefix "after-related:".
 func runCheck(p *prop, s *stats, c any) (unexplained []Fail) {
 	unexplained = runCheckOnce(p, s, c)
-	if len(unexplained) > 0 || p.related == nil {
+	if len(unexplained) > 0 {
 		return unexplained
+	}
+	if f := runUnderOtherProcs(p, s, c); len(f) > 0 {
+		return f
+	}
+	if p.related == nil {
+		return nil
 	}
 	for _, r := range p.related(c) {
 		Count("related_cases_checked", 1)
@@ -354,6 +361,53 @@ func runCheck(p *prop, s *stats, c any) (unexplained []Fail) {
 		again[i].Msg = "the case passed when checked first, but fails after calls with related arguments: " + again[i].Msg
 	}
 	return again
+}
+
+// procsWanted is implemented by cases that ask to be checked under every other scheduler width (large outputs, where
+// a library would plausibly split the work among runtime.GOMAXPROCS(0) workers).
+type procsWanted interface{ WantsProcs() bool }
+
+// procCycle: scheduler widths other than this machine's (16): one, odd, and non-powers of two.
+var procCycle = []int{3, 1, 6, 12, 5, 7, 24, 2}
+
+var procEvals int
+
+// procsForced: sweep cases (by pointer) that are to be checked under every other scheduler width (large lists / outputs).
+var procsForced = map[any]bool{}
+
+func allProcs[C any](c *C) *C {
+	procsForced[c] = true
+	return c
+}
+
+// runUnderOtherProcs: a result must not depend on the number of CPUs the process may use. Every 61st evaluation (and
+// every case that asks for it) is checked again with runtime.GOMAXPROCS set to another value; a failure carries the
+// kind prefix "gomaxprocs=N:". Replays run under all of them.
+func runUnderOtherProcs(p *prop, s *stats, c any) []Fail {
+	if p.noRevisit { // schedule dependent / expensive properties manage the scheduler themselves
+		return nil
+	}
+	procEvals++
+	var widths []int
+	if w, ok := c.(procsWanted); (ok && w.WantsProcs()) || procsForced[c] || os.Getenv("VERIF_MODE") == "replay" {
+		widths = procCycle
+	} else if procEvals%61 == 0 {
+		widths = []int{procCycle[(procEvals/61)%len(procCycle)]}
+	}
+	for _, n := range widths {
+		old := runtime.GOMAXPROCS(n)
+		f := runCheckOnce(p, s, c)
+		runtime.GOMAXPROCS(old)
+		Count("checked_under_other_gomaxprocs", 1)
+		if len(f) > 0 {
+			for i := range f {
+				f[i].Kind = fmt.Sprintf("gomaxprocs=%d:%s", n, f[i].Kind)
+				f[i].Msg = fmt.Sprintf("the case passes with GOMAXPROCS=%d and fails with GOMAXPROCS=%d: %s", old, n, f[i].Msg)
+			}
+			return f
+		}
+	}
+	return nil
 }
 
 // runCheckOnce executes the property's check on one case with panic classification and
